@@ -330,6 +330,10 @@ def c15_cases(rng, count):
     return out
 
 EXWORDS = ["a", "i", "c", "d", "y", "pu", "p", "=", "k", "m", "co", "t", "s", "g", "v", "g!", "u", "redo", "rs", "ra", "r", "w", "w!", "q", "q!", "x", "wq", "e", "e!", "ew", "b", "n", "prev",
+           # every name of the excmds table, long forms included (kept in step with ex.c by hand; a name missing here only narrows the stream)
+           "rx", "rk", "rk a /nonexistent", "rk b", "rx a true", "ra a", "so", "so nofile", "tn", "tp", "tf", "po", "pop", "ew!", "wq!", "x!", "xa", "xa!", "cm", "cmap", "ec x", "echo", "ft c", "filetype",
+           "append", "buffer", "delete", "change", "edit", "edit!", "global", "global!", "insert", "mark", "next", "print", "put", "quit", "quit!", "read", "set", "substitute", "source", "tag", "tnext", "tprev",
+           "tfree", "undo", "vglobal", "write", "write!", "xit", "xit!", "yank",
            "se", "set", "ft", "cm", "cm!", "make", "ta", "pop", "ac", "!", "@", "ec", "left", "right", "kmap", "kmap!", "", "zz", "1", "$", "%", ".", "se ic", "se noic", "se ai", "se hl", "se nohl",
            "se hll", "se order=0", "se order=2", "se shape=0", "se lim=5", "se lim=-1", "se led", "se noled", "se td=2", "se td=-2", "se td=0", "se ru=0", "se hist=5", "se hist=0", "se aw", "se wa"]
 def junk_ex_cases(rng, count):
